@@ -2086,16 +2086,13 @@ Qed.
 (** * Txn.Get against the snapshot's point read *)
 Lemma txn_get_spec now s ws readTs u :
   iter_inv s -> content_ok s ws -> seq_functional ws ->
-  (forall x, latest_at ws (sbase u) readTs = Some x -> nonempty (r_val x) = true \/ r_meta x <> 0) ->
-  txn_get now s readTs [] (sbase u) = spec_get now ws [] readTs u.
+  txn_get current now s readTs [] (sbase u) = spec_get now ws [] readTs u.
 Proof.
-  intros Hi Hc Hf Hne.
+  intros Hi Hc Hf.
   pose proof (get_latest s ws (sbase u) readTs (ii_src s Hi) (ii_scan s Hi) Hc Hf) as Hg.
-  unfold txn_get, spec_get, view, view_at. rewrite N.eqb_refl. cbn [find pending_of]. rewrite Hg.
+  unfold txn_get, spec_get, view, view_at. rewrite N.eqb_refl. cbn [find pending_of current fix_get_empty negb andb]. rewrite Hg.
   destruct (latest_at ws (sbase u) readTs) as [r|] eqn:El; [|reflexivity].
-  rewrite live_dead. destruct (Hne r eq_refl) as [H|H].
-  - rewrite H. cbn [negb andb]. rewrite andb_false_r. cbn [andb]. now destruct (deadb now r).
-  - apply N.eqb_neq in H. rewrite H, andb_false_r. now destruct (deadb now r).
+  rewrite live_dead. now destruct (deadb now r).
 Qed.
 
 
@@ -2777,14 +2774,15 @@ Qed.
 Lemma ex_rev_hyp : no_repeat (filter (visible max_u64) (fstream s_db)) = true.
 Proof. vm_compute. reflexivity. Qed.
 
-(** finding C06-G1: a committed empty value read back from a table *)
+(** C06-G1 (before its repair): a committed empty value read back from a table *)
 Definition s_g1 : state :=
   {| st_mem := []; st_memid := 9; st_imms := [];
      st_l0 := [{| t_fid := 1; t_recs := [{| r_key := sbase [x61]; r_ver := 1; r_val := []; r_meta := 0; r_exp := 0; r_seq := 1 |}] |}];
      st_lvls := []; st_maxfid := 9 |}.
 Definition w_g1 : list rec := [{| r_key := sbase [x61]; r_ver := 1; r_val := []; r_meta := 0; r_exp := 0; r_seq := 1 |}].
 Lemma g1_refuted :
-  tier_inv_b s_g1 = true /\ txn_get 100 s_g1 1 [] (sbase [x61]) = None /\ spec_get 100 w_g1 [] 1 [x61] = Some [] /\
+  tier_inv_b s_g1 = true /\ txn_get legacy 100 s_g1 1 [] (sbase [x61]) = None /\ spec_get 100 w_g1 [] 1 [x61] = Some [] /\
+  txn_get current 100 s_g1 1 [] (sbase [x61]) = Some [] /\
   map item_sitem (txn_list current 100 s_g1 1 [] (plain_opts false false) ARewind) = [ {| s_key := [x61]; s_ver := 1; s_val := [] |} ].
 Proof. vm_compute. auto. Qed.
 
